@@ -1,7 +1,7 @@
 //! This module defines the translation of a pattern match.
 
 use crate::{
-    compile::{Compile, CompileState, share},
+    compile::{Compile, CompileState, binders_occur_free, share},
     terms::clause::compile_clause,
     types::compile_ty,
 };
@@ -27,6 +27,27 @@ impl Compile for fun::syntax::terms::Case {
         cont: core_lang::syntax::terms::Term<Cns>,
         state: &mut CompileState,
     ) -> core_lang::syntax::Statement {
+        // if a variable bound by one of the clauses occurs free in the continuation, we must not move
+        // the continuation underneath the binders, so we cut against it instead:
+        // <μa.〚case t of { ... } 〛_{a} | c>
+        let binders: Vec<&String> = self
+            .clauses
+            .iter()
+            .flat_map(|clause| clause.context_names.bindings.iter())
+            .collect();
+        if binders_occur_free(&binders, &cont) {
+            let case_ty = compile_ty(
+                &self
+                    .get_type()
+                    .expect("Types should be annotated before translation"),
+            );
+            return core_lang::syntax::statements::Cut {
+                producer: Rc::new(self.compile(state, case_ty.clone())),
+                ty: case_ty,
+                consumer: Rc::new(cont),
+            }
+            .into();
+        }
         // if there is more than one clause and the consumer is a not a leaf, we share it by
         // lifting it to the top level to avoid exponential blowup
         let cont = if self.clauses.len() <= 1
